@@ -10,8 +10,8 @@ N_Factors == {<<1, 1>>, <<2, 1>>, <<-1, 2>>}
 Q_MaxK == 8
 Q_Lits == {-8, -4, -1, 0, 3, 4}
 Q_Factors == Fs
-\* full: |value| <= 4 cycles
-F_MaxK == 32
-F_Lits == {-32, -20, -12, -5, -4, -1, 0, 3, 4, 12, 28}
+\* full: |value| <= 3 cycles
+F_MaxK == 24
+F_Lits == {-24, -20, -12, -5, -4, -1, 0, 3, 4, 12, 23}
 F_Factors == Fs \cup {<<3, 2>>, <<-1, 3>>, <<8, 1>>, <<1, 8>>}
 =============================================================================
